@@ -24,6 +24,13 @@ ASSUMPTIONS = [
     "weights are dyadic rationals k/4 (also as Python ints), so every sum of at most 2^40 of them is exact in "
     "binary64 and distances/total weights must agree exactly; PageRank is compared as exact rationals of the "
     "returned doubles against the bound 10*tol/(1-d)",
+    "inexact-double inputs (`fp` cases: weights 1e-12..1e-8, 1e8 mixed with 1e-8, decimal fractions whose cycle sums "
+    "nearly cancel, tiny negative self loops): python's own float arithmetic may legitimately disagree with exact "
+    "arithmetic about the sign of a cycle or the last bit of a distance, so there the exact-distance checker is not "
+    "applied; kept are back-end equivalence (same status; distances/objective bit-identical, since both back-ends do "
+    "the same IEEE additions and comparisons - for Dijkstra the least left-folded path sum is unique by monotonicity "
+    "of rounded addition) and the exact clauses that do not depend on rounding (finite entries = reachable pairs, "
+    "returned paths are walks, INFEASIBLE = unreachable) via the verified checkers",
     "certificates (tree levels, potentials, negative cycles) are produced by untrusted Lean code in "
     "Solvor/Backend/Certs.lean and accepted only through the verified checkers",
 ]
@@ -92,6 +99,79 @@ def gen_edges(rng, n, weighted, neg, maxm):
     return es
 
 
+FP_FUNCS = ("floyd_warshall", "bellman_ford", "dijkstra_edges")
+FP_SHARE = 0.3   # fixed share of inexact-double inputs, both tiers
+_DECIMAL_CYCLES = [(-0.1, -0.2, 0.3), (0.1, 0.2, -0.3), (0.1, 0.7, -0.8), (-0.1, -0.7, 0.8), (0.3, 0.6, -0.9),
+                   (-0.3, -0.6, 0.9), (1.1, 2.2, -3.3), (-1.1, -2.2, 3.3), (0.1, -0.1, 0.0), (0.15, 0.15, -0.3)]
+
+
+def gen_fp_edges(rng, n, fn):
+    """Edge list [u, v, w] with w an arbitrary double: tiny magnitudes, mixed magnitudes, decimal fractions whose
+    cycle sums nearly cancel (tiny negative / positive / zero in binary64), tiny negative self loops."""
+    nonneg = fn == "dijkstra_edges"
+    style = rng.choice(["tiny", "mixed", "cancel", "selfloop", "cancel", "tiny"])
+    if nonneg and style in ("cancel", "selfloop"):
+        style = rng.choice(["tiny", "mixed"])
+
+    def tiny():
+        w = rng.randint(1, 9) * 10.0 ** -rng.randint(8, 12)
+        return w if nonneg or rng.random() < 0.6 else -w
+
+    def ordinary():
+        return rng.choice([0.0, 0.1, 0.25, 0.5, 1.0, 2.0, 3.7, 10.0]) if rng.random() < 0.8 else rng.randint(1, 40) / 4
+
+    def mixed():
+        r = rng.random()
+        if r < 0.35:
+            w = rng.randint(1, 9) * 1e8
+        elif r < 0.7:
+            w = rng.randint(1, 9) * 1e-8
+        else:
+            w = ordinary()
+        return w if nonneg or rng.random() < 0.75 else -w
+
+    m = rng.choice([1, 2, 3, 4, 6, 8, 12])
+    draw = {"tiny": tiny, "mixed": mixed, "cancel": ordinary, "selfloop": ordinary}[style]
+    es = []
+    for _ in range(m):
+        r = rng.random()
+        if es and r < 0.2:
+            u, v = rng.choice(es)[:2]
+        elif es and r < 0.35:
+            v, u = rng.choice(es)[:2]
+        else:
+            u, v = rng.randrange(n), rng.randrange(n)
+        es.append([u, v, draw()])
+    if style == "cancel":
+        for _ in range(rng.choice([1, 1, 2])):
+            k = rng.choice([1, 2, 3]) if n >= 3 else rng.choice([1, 2][:max(1, n)])
+            nodes = rng.sample(range(n), min(k, n))
+            if rng.random() < 0.6:
+                ws = list(rng.choice(_DECIMAL_CYCLES))
+            else:  # x, y, -(x+y) with the sum taken in decimal
+                x, y = rng.randint(1, 99) / 100, rng.randint(1, 99) / 100
+                ws = [x, y, -round(x + y, 2)]
+                if rng.random() < 0.5:
+                    ws = [-w for w in ws]
+            rng.shuffle(ws)
+            if len(nodes) == 3:
+                cyc = [(nodes[0], nodes[1]), (nodes[1], nodes[2]), (nodes[2], nodes[0])]
+            elif len(nodes) == 2:   # two edges one way (the kernel keeps the min) is useless: go there, back, and a loop
+                cyc = [(nodes[0], nodes[1]), (nodes[1], nodes[0]), (nodes[0], nodes[0])]
+                ws = [ws[0] + ws[1], ws[2], 0.0] if rng.random() < 0.5 else ws
+            else:
+                cyc = [(nodes[0], nodes[0])]
+                ws = [rng.choice([ws[0] + ws[1] + ws[2], (ws[0] + ws[1]) + ws[2], ws[0] + (ws[1] + ws[2])])]
+            es += [[a, b, w] for (a, b), w in zip(cyc, ws)]
+    if style == "selfloop" or (not nonneg and rng.random() < 0.15):
+        u = rng.randrange(n)
+        w = -rng.choice([1e-12, 1e-10, 5e-11, 1e-9, 2.5e-13, 1e-15])
+        es.append([u, u, w] if rng.random() < 0.6 or n == 1 else [u, (u + 1) % n, w])
+    if rng.random() < 0.5:
+        rng.shuffle(es)
+    return es
+
+
 def gen_case(rng, fn, big):
     nmax = 8
     case = {"fn": fn}
@@ -116,6 +196,10 @@ def gen_case(rng, fn, big):
         es = [[perm[min(a, b)], perm[max(a, b)]] for a, b in es if a != b]
     case["edges"] = es
     case["int_weights"] = weighted and rng.random() < 0.3
+    if fn in FP_FUNCS and rng.random() < FP_SHARE:
+        case["edges"] = gen_fp_edges(rng, n, fn)
+        case["fp"] = True
+        case["int_weights"] = False
     if fn == "floyd_warshall":
         case["directed"] = rng.random() < 0.45
     if fn in ("bellman_ford", "dijkstra_edges", "bfs_edges", "dfs_edges"):
@@ -199,6 +283,11 @@ def _load():
     import solvor.rust as r
     if not solvor.__file__.startswith(_PKG) or not r.get_rust_module().__file__.startswith(_PKG):
         raise RuntimeError("solvor was not imported from the scratch package")
+    try:  # a call that never returns may also allocate without bound: cap the worker's address space
+        import resource
+        resource.setrlimit(resource.RLIMIT_AS, (6 << 30, 6 << 30))
+    except Exception:
+        pass
     _LOADED = True
 
 
@@ -212,7 +301,17 @@ def _q(x):
     return int(f)
 
 
+def _h(x):
+    """double -> bit-exact text (inf -> None); -0.0 and 0.0 are the same distance."""
+    x = float(x)
+    if x in (float("inf"), float("-inf")):
+        return None if x > 0 else "-inf"
+    return (x + 0.0).hex()
+
+
 def _weights(case):
+    if case.get("fp"):
+        return [(e[0], e[1], float(e[2])) for e in case["edges"]]
     es = []
     for e in case["edges"]:
         if len(e) == 2:
@@ -229,10 +328,11 @@ def _call(case, backend):
     n = case["n"]
     es = _weights(case)
     kw = {} if backend == "omit" else {"backend": backend}
+    Q = _h if case.get("fp") else _q
     if fn == "floyd_warshall":
         from solvor.floyd_warshall import floyd_warshall
         r = floyd_warshall(n, es, directed=case["directed"], **kw)
-        sol = None if r.solution is None else [[_q(x) for x in row] for row in r.solution]
+        sol = None if r.solution is None else [[Q(x) for x in row] for row in r.solution]
         obj = None
     elif fn == "bellman_ford":
         from solvor.bellman_ford import bellman_ford
@@ -293,15 +393,23 @@ def _call(case, backend):
 
 
 def _sssp(case, r):
+    Q = _h if case.get("fp") else _q
     if case["t"] is None:
         if r.solution is None:
             return None, None
         d = [None] * case["n"]
         for k, v in r.solution.items():
-            d[int(k)] = _q(v)
+            d[int(k)] = Q(v)
         return d, None
     sol = None if r.solution is None else [int(v) for v in r.solution]
-    return sol, _q(r.objective)
+    return sol, Q(r.objective)
+
+
+def impl_one(task):
+    """One back-end alone (used to find out which back-ends fail to return when a whole case hung)."""
+    case, b = task
+    _load()
+    return _call(case, b)
 
 
 def impl(case):
@@ -333,7 +441,23 @@ def impl(case):
 # ---------------------------------------------------------------------------
 
 def _wes(case):
+    if case.get("fp"):   # only reachability / walk clauses are checked exactly: weights do not matter
+        return [[e[0], e[1], 1] for e in case["edges"]]
     return [[e[0], e[1], (e[2] if len(e) == 3 else 1)] for e in case["edges"]]
+
+
+SKIP = "SKIP"   # fp case with status UNBOUNDED: nothing the exact checkers can say
+
+
+def encode_fp(case, o):
+    fn, st, sol = case["fn"], o["status"], o["sol"]
+    if st == "UNBOUNDED":
+        return SKIP
+    if fn == "floyd_warshall":
+        return [[0 if x is None else 1 for x in row] for row in sol]
+    if case["t"] is None:
+        return [i for i, x in enumerate(sol) if x is not None]
+    return None if st == "INFEASIBLE" else sol
 
 
 def _as_sublist(es, F):
@@ -351,6 +475,8 @@ def _as_sublist(es, F):
 def encode_out(case, o):
     """Implementation output (canonical dict) -> protocol value for the verified checker."""
     fn, st, sol, obj = case["fn"], o["status"], o["sol"], o["obj"]
+    if case.get("fp"):
+        return encode_fp(case, o)
     if fn == "floyd_warshall":
         return None if st == "UNBOUNDED" else sol
     if fn in ("bellman_ford", "dijkstra_edges"):
@@ -393,7 +519,7 @@ def well_formed(case, o):
         if t is None:
             return st == "OPTIMAL" and sol is not None
         return (st == "INFEASIBLE" and sol is None and obj is None) or \
-               (st == "OPTIMAL" and sol is not None and isinstance(obj, int))
+               (st == "OPTIMAL" and sol is not None and isinstance(obj, str if case.get("fp") else int))
     if fn in ("bfs_edges", "dfs_edges"):
         if t is None:
             return st == "OPTIMAL" and sol is not None
@@ -448,6 +574,12 @@ def to_request(case, outs, out=None):
     """outs: list of distinct well-formed outputs; out: the raw pool outcome (PageRank defaults)."""
     fn, n, es = case["fn"], case["n"], _wes(case)
     enc = [encode_out(case, o) for o in outs]
+    if case.get("fp"):
+        if fn == "floyd_warshall":
+            return ["support", n, es, bool(case["directed"]), [None if e == SKIP else e for e in enc]]
+        if case["t"] is None:
+            return ["reach", n, es, case["s"], [[] if e == SKIP else e for e in enc]]
+        return ["anypath", n, es, case["s"], case["t"], [None if e == SKIP else e for e in enc]]
     if fn == "floyd_warshall":
         return ["fw", n, es, bool(case["directed"]), enc]
     if fn in ("bellman_ford", "dijkstra_edges"):
@@ -520,6 +652,12 @@ def prepare(case, out):
 def verdicts(case, reply, k):
     """Verified-checker verdict for distinct output k -> (accepted, extra)."""
     fn = case["fn"]
+    if case.get("fp"):
+        if fn == "floyd_warshall":
+            return reply[0][k], {}
+        if case["t"] is None:
+            return reply[1][k][0], {"same_set": reply[1][k][1]}
+        return reply[1][k], {}
     if fn == "floyd_warshall":
         return reply[1][k], {"solves_first_weight_problem": reply[2][k]}
     if fn in ("bellman_ford", "dijkstra_edges"):
@@ -558,8 +696,21 @@ def judge(ctx, case, out, outs, idx, reply):
     rep = {"case": case, "impl": out, "model": reply}
     dup, anti, diffw = multigraph_features(case)
     mode = fn + (":target" if case.get("t") is not None else "") + \
-        (":undirected" if case.get("directed") is False else "")
+        (":undirected" if case.get("directed") is False else "") + (":fp" if case.get("fp") else "")
     ctx.count("fn:" + mode)
+    if out[0] == "hung":
+        kinds = out[1]
+        noreturn = {"Timeout", "MemoryError", "WorkerDied"}
+        if all(kd in noreturn for kd in kinds.values()):
+            # every back-end fails to return on this input: the same (bad) behaviour, nothing C12 distinguishes
+            ctx.count(f"all_backends_do_not_return:{mode}")
+            if not any("do not return" in n for n in ctx.notes):
+                ctx.notes.append("not a C12 failure, reported for C11: inputs on which python, rust and default all "
+                                 f"do not return (first: {json.dumps(case)})")
+        else:
+            _fail(ctx, fn, "termination_differs", f"back-ends differ in returning at all: {kinds}", rep)
+        ctx.case([fn, case], dup or anti, None)
+        return
     if out[0] != "ok":
         _fail(ctx, fn, "raises:" + err_kind(out), f"worker failed: {out[1]}", rep)
         return
@@ -589,7 +740,7 @@ def judge(ctx, case, out, outs, idx, reply):
         if fn == "dfs_edges" and (py["status"], rs["status"]) == ("FEASIBLE", "OPTIMAL"):
             klass = "status_differs:dfs_found_feasible_vs_optimal"
         robust = True
-        if fn == "floyd_warshall" and not case["directed"] and diffw:
+        if fn == "floyd_warshall" and not case["directed"] and diffw and not case.get("fp"):
             klass = "status_differs:undirected_multigraph"  # same defect as dist_wrong:undirected_multigraph
         if fn == "pagerank_edges":
             # a difference that disappears under a 1e-6 relative change of tol is a rounding straddle of the
@@ -617,6 +768,10 @@ def judge(ctx, case, out, outs, idx, reply):
     else:
         acc = {}
         for b in ("python", "rust", "None"):
+            if case.get("fp") and encode_out(case, res[b][1]) == SKIP:
+                acc[b] = True   # UNBOUNDED on an inexact-double input: only the back-end comparison applies
+                ctx.count("fp_unbounded_not_exact_checked")
+                continue
             acc[b], extra = verdicts(case, reply, idx[b])
             ctx.count(f"checker:{b}:{'accept' if acc[b] else 'reject'}")
             if acc[b]:
@@ -624,6 +779,8 @@ def judge(ctx, case, out, outs, idx, reply):
             o = res[b][1]
             klass = f"output_rejected:{b}"
             what = f"backend={b}: output rejected by the verified checker: {o}"
+            if case.get("fp"):
+                klass = f"fp_support_or_path_rejected:{b}"
             if fn in ("bfs_edges", "dfs_edges") and case["t"] is None and extra.get("same_set"):
                 klass = f"reach_list_not_sorted:{b}"
                 what = (f"backend={b} returns the reachable nodes as {o['sol']}; the documented value "
@@ -658,6 +815,10 @@ def judge(ctx, case, out, outs, idx, reply):
 
 def observable(case, o):
     fn = case["fn"]
+    if case.get("fp"):   # status + bit-exact distances / objective (paths may differ)
+        if case.get("t") is not None:
+            return [o["status"], o["sol"] is not None, o["obj"]]
+        return [o["status"], o["sol"]]
     if fn == "kruskal":
         return [o["status"], o["obj"]]
     if fn == "dfs_edges" and case["t"] is not None:
@@ -681,7 +842,21 @@ def run_cases(ctx, cases):
         ctx.notes.append("Rust extension NOT rebuilt from the working tree: " + info.get("fallback_reason", ""))
     if info.get("default_backend") != "rust":
         raise core.Infra("default back-end is not rust although the extension was built")
-    outs = run_pool(impl, cases, timeout=60.0)
+    outs = run_pool(impl, cases, timeout=8.0)
+    # a case that did not come back: which back-ends fail to return?  (each alone, short limit)
+    hung = [i for i, o in enumerate(outs) if o[0] != "ok"]
+    if hung:
+        sub = run_pool(impl_one, [(cases[i], b) for i in hung for b in BACKENDS], timeout=4.0)
+        again = []
+        for k, i in enumerate(hung):
+            kinds = [err_kind(r) for r in sub[3 * k:3 * k + 3]]
+            if all(kd == "ok" for kd in kinds):
+                again.append(i)      # load spike: run the case once more, alone
+            else:
+                outs[i] = ("hung", dict(zip(("python", "rust", "None"), kinds)))
+        if again:
+            for i, o in zip(again, run_pool(impl, [cases[i] for i in again], timeout=60.0, procs=4)):
+                outs[i] = o
     prepared = [prepare(c, o) for c, o in zip(cases, outs)]
     reqs = [to_request(c, p[0], o) for c, o, p in zip(cases, outs, prepared)]
     replies = Driver("Backend").run(reqs, chunks=16)
